@@ -801,7 +801,13 @@ pub fn resolve_kytea(raw: &RawKytea) -> KyteaCase {
     let file = KFile {
         tag_line: b"KyTea 0.4.0 B utf8\n".to_vec(),
         do_ws: 1,
-        do_tags: (n_tags > 0) as u8,
+        // the tagging flag says what the model was trained to do, not what the file holds: a
+        // model trained with -notags on a tagged corpus has tag slots and the flag cleared
+        do_tags: match raw.shuffle.first().copied().unwrap_or(0) % 4 {
+            0 => 0,
+            1 => 1,
+            _ => (n_tags > 0) as u8,
+        },
         n_tags,
         char_w: raw.char_w,
         char_n: 3,
